@@ -43,7 +43,7 @@ theorem solv_step {I : Int → Int} {T : Int → Int → Option Int} {st : State
     | create alloc m n c L en stt pd lp vd vs =>
       obtain ⟨hc, rfl⟩ := doCreate_ok h
       unfold createOk at hc
-      obtain ⟨-, -, -, -, -, -, -, -, -, -, hn, -, -, -, -, -, hcp, -⟩ := hc
+      obtain ⟨-, -, -, -, -, -, -, -, -, -, hn, -, -, -, -, -, -, hcp, -⟩ := hc
       refine ⟨by simp, ?_⟩
       intro p hp _
       simp only [Option.some.injEq] at hp
